@@ -201,6 +201,7 @@ pub fn run_cross(rng: &mut Rng, count: usize, thorough: bool, extra: &[String], 
         out.inp(&format!("recipe {}", g.recipe));
         write_build(out, &g.build);
         let before = frame_digest(&af);
+        let small_for_external = af.n_arguments() <= 6 && crate::statics::max_defender_product(&af) <= 16;
         let live: Vec<usize> = af.argument_set().iter().map(|a| *a.label()).collect();
         // (a) every configuration of every problem on one argument
         let arg = *rng.pick(&live);
@@ -214,7 +215,9 @@ pub fn run_cross(rng: &mut Rng, count: usize, thorough: bool, extra: &[String], 
                     let r = guarded(|| run_query(&af, sem, q, cert, enc, &args, default_factory()));
                     out.out(&format!("cfg {} {} {} {} {} cadical => {}", sem, q, arg, enc, if cert { 1 } else { 0 }, acc_string(&r)));
                     if let Some(p) = &external {
-                        if *sem != "GR" && rng.chance(1, 3) {
+                        // the reference solver is a plain DPLL reading its input recursively: keep it
+                        // to instances it answers in milliseconds
+                        if *sem != "GR" && small_for_external && rng.chance(1, 3) {
                             let r = guarded(|| run_query(&af, sem, q, cert, enc, &args, external_factory(p)));
                             out.out(&format!("cfg {} {} {} {} {} external => {}", sem, q, arg, enc, if cert { 1 } else { 0 }, acc_string(&r)));
                         }
